@@ -74,15 +74,34 @@ fn random_phys(rng: &mut Rng, cfg: &Cfg, stratum: (u8, u8)) -> (u8, u8) {
 
 /// Clean (fault-free) op list of one typing session.
 pub fn type_session(rng: &mut Rng, cfg: &Cfg, p: &TypistParams) -> Vec<TOp> {
-    let known = known_phys(cfg);
+    let mut known = known_phys(cfg);
     let mods = modifier_phys(cfg);
+    // swarm: a third of the sessions use only a handful of keys (plus the modifiers), which
+    // makes specific orderings among few keys - roll-overs, A-B-A patterns - common
+    if rng.chance(1, 3) && known.len() > 8 {
+        let n = rng.range(2, 7) as usize;
+        let mut few: Vec<(u8, u8)> = Vec::with_capacity(n + 2);
+        for _ in 0..n {
+            few.push(*rng.pick(&known));
+        }
+        if rng.bool() {
+            few.push(*rng.pick(&mods));
+        }
+        known = few;
+    }
     let mut ops: Vec<TOp> = Vec::new();
     let mut held: Vec<(u8, u8)> = Vec::new();
     let mut t: u64 = 0;
     let max_held = match p.style {
         Style::Prose | Style::Numpad => 2,
         Style::Chords => 4,
-        Style::Mash => 8,
+        Style::Mash => {
+            if rng.chance(1, 4) {
+                rng.range(17, 40) as usize // a forearm (or a cat) on the keyboard
+            } else {
+                8
+            }
+        }
         Style::Unknown => 3,
         Style::Bursts => 2,
     };
@@ -123,6 +142,48 @@ pub fn type_session(rng: &mut Rng, cfg: &Cfg, p: &TypistParams) -> Vec<TOp> {
             }
             continue;
         }
+        // drumming: the same key tapped again and again (Backspace, an arrow, ScrollLock twice
+        // for a KVM switch) - mostly a few taps, sometimes dozens
+        if rng.chance(1, 60) {
+            let (pf, c) = if rng.chance(1, 3) { *rng.pick(&mods) } else { *rng.pick(&known) };
+            if !held.contains(&(pf, c)) {
+                let taps = if rng.chance(1, 4) { rng.range(10, 45) } else { rng.range(2, 6) };
+                for _ in 0..taps {
+                    ops.push(TOp { t, op: key(pf, c, false) });
+                    t += rng.range(20, 120) * MS;
+                    ops.push(TOp { t, op: key(pf, c, true) });
+                    t += rng.range(20, 200) * MS;
+                }
+                continue;
+            }
+        }
+        // a navigation key the way real keyboards send it: wrapped in fake shifts. With a
+        // Shift held (NumLock off) the keyboard first "releases" the shift (E0 F0 12), sends the
+        // key, and "re-presses" it afterwards (E0 12); with NumLock on and no Shift it is the
+        // other way round
+        if rng.chance(1, 40) {
+            let native1 = cfg.set == 1 && cfg.xt;
+            let (shift, fake): ((u8, u8), (u8, u8)) = if native1 { ((0, 0x2A), (1, 0x2A)) } else { ((0, 0x12), (1, 0x12)) };
+            let navs: &[u8] = if native1 { &[0x52, 0x47, 0x49, 0x53, 0x4F, 0x51, 0x48, 0x4B, 0x50, 0x4D, 0x35] } else { &[0x70, 0x6C, 0x7D, 0x71, 0x69, 0x7A, 0x75, 0x6B, 0x72, 0x74, 0x4A] };
+            let nav = (1u8, *rng.pick(navs));
+            let shift_held = held.contains(&shift) || rng.bool();
+            if shift_held && !held.contains(&shift) {
+                ops.push(TOp { t, op: key(shift.0, shift.1, false) });
+                held.push(shift);
+                t += rng.range(20, 200) * MS;
+            }
+            // shift held: fake release first; otherwise (NumLock case) fake press first
+            ops.push(TOp { t, op: key(fake.0, fake.1, shift_held) });
+            t += MS;
+            for _ in 0..rng.range(1, 4) {
+                ops.push(TOp { t, op: key(nav.0, nav.1, false) });
+                t += rng.range(30, 300) * MS;
+            }
+            ops.push(TOp { t, op: key(nav.0, nav.1, true) });
+            t += MS;
+            ops.push(TOp { t, op: key(fake.0, fake.1, !shift_held) });
+            continue;
+        }
         let release = !held.is_empty() && (held.len() >= max_held || rng.chance(45, 100));
         if release {
             let i = rng.below(held.len() as u64) as usize;
@@ -140,8 +201,13 @@ pub fn type_session(rng: &mut Rng, cfg: &Cfg, p: &TypistParams) -> Vec<TOp> {
             let long = rng.chance(1, 300);
             let reps = if !long {
                 rng.range(1, 4)
-            } else if rng.chance(1, 50) {
-                rng.range(65_530, 65_600) // a book on the keyboard: past the 16-bit mark
+            } else if rng.chance(1, 25) {
+                // a book on the keyboard: past the 16-bit mark, now and then past 2^18 and 2^20
+                match rng.below(24) {
+                    0 => rng.range(1_048_570, 1_048_600),
+                    1..=4 => rng.range(262_140, 262_200),
+                    _ => rng.range(65_530, 66_200),
+                }
             } else if rng.bool() {
                 rng.range(250, 262)
             } else {
